@@ -17,7 +17,7 @@ def closed_form(stamps, period, punit, unit, tol):
 
 class C13(Prop):
     id = 'C13'
-    rule_added = '25% of online cases after an earlier run + reset(); 25% of all cases on an object configured differently before. 12% with epoch-size integer time-stamps (beyond 2**53).'
+    rule_added = '25% of online cases after an earlier run + reset(); 25% of all cases on an object configured differently before. 12% with epoch-size integer time-stamps (beyond 2**53). The first stamp may be negative.'
     rule = ('time-stamp sequences of 1..50 stamps with dyadic gaps (on-period, exactly on either tolerance bound, '
             'just inside/outside, zero, huge) x period in {1 s, 500 ms, 2 s, 250000 us, 4 ms} x default unit in '
             '{s, ms, us} x tolerance in {0, 1/8, 1/4, 1/2, 1, 0.1 (kept away from the bounds)} x '
